@@ -48,70 +48,117 @@ Definition jweekday (v : str * option Z * str) : jv :=
   let '(s, rel, wd) := v in JL [JS s; jopt JZ rel; JS wd].
 Definition jmonth (v : Z * bool) : jv := let '(n, l) := v in JL [jbig n; jbool l].
 
-Definition on_str (a : jv) (k : str -> jv) : option jv :=
-  Some (match a with JS s => k s | _ => junsupported end).
+Definition on_str (a : jv) (k : str -> jv) : jv :=
+  match a with JS s => k s | _ => junsupported end.
 
-Definition dispatch_c03 (f : list N) (a : jv) : option jv :=
-  if cis f "py_int" then on_str a (fun s => cres jbig (py_int s))
-  else if cis f "str_of_Z" then Some (match big_of a with Some z => JS (str_of_Z z) | None => junsupported end)
-  else if cis f "enc_date" then
-    Some (match a with JL [JZ y; JZ m; JZ d] => cres JS (enc_date y m d) | _ => junsupported end)
-  else if cis f "dec_date" then on_str a (fun s => cres jdate (dec_date s))
-  else if cis f "enc_time" then
-    Some (match a with JL [JZ h; JZ m; JZ s; JZ u] => cres JS (enc_time h m s (negb (u =? 0))) | _ => junsupported end)
-  else if cis f "dec_time" then on_str a (fun s => cres jtime (dec_time s))
-  else if cis f "enc_datetime" then
-    Some (match a with JL l => match dt_of l with Some v => cres JS (enc_datetime v) | None => junsupported end
-                  | _ => junsupported end)
-  else if cis f "dec_datetime" then on_str a (fun s => cres jdt (dec_datetime s))
-  else if cis f "enc_dur" then Some (match a with JZ s => cres JS (enc_dur s) | _ => junsupported end)
-  else if cis f "dec_dur" then on_str a (fun s => cres JZ (dec_dur s))
-  else if cis f "enc_offset" then Some (match a with JZ s => cres JS (enc_offset s) | _ => junsupported end)
-  else if cis f "dec_offset" then on_str a (fun s => cres JZ (dec_offset s))
-  else if cis f "ddd_from_ical" then on_str a (fun s => cres jddd (ddd_from_ical s))
-  else if cis f "dec_period" then on_str a (fun s => cres jddd (dec_period s))
-  else if cis f "enc_period" then
-    Some (match a with
+(* name -> function table: a top-level constant, so the extracted driver converts the names once *)
+Definition c03_table : list (str * (jv -> jv)) :=
+  [(s2l "py_int", fun a : jv =>
+      on_str a (fun s => cres jbig (py_int s)));
+   (s2l "str_of_Z", fun a : jv =>
+      match big_of a with Some z => JS (str_of_Z z) | None => junsupported end);
+   (s2l "enc_date", fun a : jv =>
+      match a with JL [JZ y; JZ m; JZ d] => cres JS (enc_date y m d) | _ => junsupported end);
+   (s2l "dec_date", fun a : jv =>
+      on_str a (fun s => cres jdate (dec_date s)));
+   (s2l "enc_time", fun a : jv =>
+      match a with JL [JZ h; JZ m; JZ s; JZ u] => cres JS (enc_time h m s (negb (u =? 0))) | _ => junsupported end);
+   (s2l "dec_time", fun a : jv =>
+      on_str a (fun s => cres jtime (dec_time s)));
+   (s2l "enc_datetime", fun a : jv =>
+      match a with JL l => match dt_of l with Some v => cres JS (enc_datetime v) | None => junsupported end
+                  | _ => junsupported end);
+   (s2l "dec_datetime", fun a : jv =>
+      on_str a (fun s => cres jdt (dec_datetime s)));
+   (s2l "enc_dur", fun a : jv =>
+      match a with JZ s => cres JS (enc_dur s) | _ => junsupported end);
+   (s2l "dec_dur", fun a : jv =>
+      on_str a (fun s => cres JZ (dec_dur s)));
+   (s2l "enc_offset", fun a : jv =>
+      match a with JZ s => cres JS (enc_offset s) | _ => junsupported end);
+   (s2l "dec_offset", fun a : jv =>
+      on_str a (fun s => cres JZ (dec_offset s)));
+   (s2l "ddd_from_ical", fun a : jv =>
+      on_str a (fun s => cres jddd (ddd_from_ical s)));
+   (s2l "dec_period", fun a : jv =>
+      on_str a (fun s => cres jddd (dec_period s)));
+   (s2l "enc_period", fun a : jv =>
+      match a with
           | JL [JL x; JL y] => match dt_of x, dt_of y with
                                | Some u, Some v => cres JS (enc_period_explicit u v)
                                | _, _ => junsupported end
           | JL [JL x; JZ s] => match dt_of x with Some u => cres JS (enc_period_dur u s) | None => junsupported end
-          | _ => junsupported end)
-  else if cis f "enc_int" then
-    Some (match big_of a with Some z => cres JS (enc_int z) | None => junsupported end)
-  else if cis f "dec_int" then on_str a (fun s => cres jbig (dec_int s))
-  else if cis f "enc_bool" then Some (match a with JZ b => JS (enc_bool (negb (b =? 0))) | _ => junsupported end)
-  else if cis f "dec_bool" then on_str a (fun s => cres jbool (dec_bool s))
-  else if cis f "enc_binary" then on_str a (fun s => cres JS (enc_binary s))
-  else if cis f "dec_binary" then on_str a (fun s => cres JS (dec_binary s))
-  else if cis f "b64_enc" then on_str a (fun s => JS (b64_enc s))
-  else if cis f "utf8_encode" then on_str a (fun s => cres JS (utf8_encode s))
-  else if cis f "weekday_new" then on_str a (fun s => cres jweekday (weekday_new s))
-  else if cis f "dec_weekday" then on_str a (fun s => cres jweekday (dec_weekday s))
-  else if cis f "enc_weekday" then on_str a (fun s => if all_ascii s then JS (enc_weekday s) else junsupported)
-  else if cis f "freq_new" then on_str a (fun s => cres JS (freq_new s))
-  else if cis f "dec_freq" then on_str a (fun s => cres JS (dec_freq s))
-  else if cis f "enc_freq" then on_str a (fun s => if all_ascii s then JS (enc_freq s) else junsupported)
-  else if cis f "dec_month" then on_str a (fun s => cres jmonth (dec_month s))
-  else if cis f "enc_month" then
-    Some (match a with
+          | _ => junsupported end);
+   (s2l "enc_int", fun a : jv =>
+      match big_of a with Some z => cres JS (enc_int z) | None => junsupported end);
+   (s2l "dec_int", fun a : jv =>
+      on_str a (fun s => cres jbig (dec_int s)));
+   (s2l "enc_bool", fun a : jv =>
+      match a with JZ b => JS (enc_bool (negb (b =? 0))) | _ => junsupported end);
+   (s2l "dec_bool", fun a : jv =>
+      on_str a (fun s => cres jbool (dec_bool s)));
+   (s2l "enc_binary", fun a : jv =>
+      on_str a (fun s => cres JS (enc_binary s)));
+   (s2l "dec_binary", fun a : jv =>
+      on_str a (fun s => cres JS (dec_binary s)));
+   (s2l "b64_enc", fun a : jv =>
+      on_str a (fun s => JS (b64_enc s)));
+   (s2l "utf8_encode", fun a : jv =>
+      on_str a (fun s => cres JS (utf8_encode s)));
+   (s2l "weekday_new", fun a : jv =>
+      on_str a (fun s => cres jweekday (weekday_new s)));
+   (s2l "dec_weekday", fun a : jv =>
+      on_str a (fun s => cres jweekday (dec_weekday s)));
+   (s2l "enc_weekday", fun a : jv =>
+      on_str a (fun s => if all_ascii s then JS (enc_weekday s) else junsupported));
+   (s2l "freq_new", fun a : jv =>
+      on_str a (fun s => cres JS (freq_new s)));
+   (s2l "dec_freq", fun a : jv =>
+      on_str a (fun s => cres JS (dec_freq s)));
+   (s2l "enc_freq", fun a : jv =>
+      on_str a (fun s => if all_ascii s then JS (enc_freq s) else junsupported));
+   (s2l "dec_month", fun a : jv =>
+      on_str a (fun s => cres jmonth (dec_month s)));
+   (s2l "enc_month", fun a : jv =>
+      match a with
           | JL [n; JZ l] => match big_of n with Some z => cres JS (enc_month z (negb (l =? 0))) | None => junsupported end
-          | _ => junsupported end)
-  else if cis f "dec_uri" then on_str a (fun s => JS (dec_uri s))
-  else if cis f "enc_uri" then on_str a (fun s => JS (enc_uri s))
-  (* RFC readings: the value the grammar assigns, or none *)
-  else if cis f "date_value" then on_str a (fun s => jopt jdate (date_value s))
-  else if cis f "time_value" then on_str a (fun s => jopt jtime (time_value s))
-  else if cis f "datetime_value" then on_str a (fun s => jopt jdt (datetime_value s))
-  else if cis f "dur_value" then on_str a (fun s => jopt jbig (dur_value s))
-  else if cis f "offset_value" then on_str a (fun s => jopt JZ (offset_value s))
-  else if cis f "period_value" then on_str a (fun s => jopt jddd (period_value s))
-  else if cis f "int_value" then on_str a (fun s => jopt jbig (int_value s))
-  else if cis f "bool_value" then on_str a (fun s => jopt jbool (bool_value s))
-  else if cis f "binary_grammar" then on_str a (fun s => jbool (binary_grammar s))
-  else if cis f "weekday_value" then
-    on_str a (fun s => jopt (fun v : option Z * str => JL [jopt JZ (fst v); JS (snd v)]) (weekday_value s))
-  else if cis f "freq_grammar" then on_str a (fun s => jbool (freq_grammar s))
-  else if cis f "month_value" then on_str a (fun s => jopt jmonth (month_value s))
-  else if cis f "uri_grammar" then on_str a (fun s => jbool (uri_grammar s))
-  else None.
+          | _ => junsupported end);
+   (s2l "dec_uri", fun a : jv =>
+      on_str a (fun s => JS (dec_uri s)));
+   (s2l "enc_uri", fun a : jv =>
+      on_str a (fun s => JS (enc_uri s)));
+   (s2l "date_value", fun a : jv =>
+      on_str a (fun s => jopt jdate (date_value s)));
+   (s2l "time_value", fun a : jv =>
+      on_str a (fun s => jopt jtime (time_value s)));
+   (s2l "datetime_value", fun a : jv =>
+      on_str a (fun s => jopt jdt (datetime_value s)));
+   (s2l "dur_value", fun a : jv =>
+      on_str a (fun s => jopt jbig (dur_value s)));
+   (s2l "offset_value", fun a : jv =>
+      on_str a (fun s => jopt JZ (offset_value s)));
+   (s2l "period_value", fun a : jv =>
+      on_str a (fun s => jopt jddd (period_value s)));
+   (s2l "int_value", fun a : jv =>
+      on_str a (fun s => jopt jbig (int_value s)));
+   (s2l "bool_value", fun a : jv =>
+      on_str a (fun s => jopt jbool (bool_value s)));
+   (s2l "binary_grammar", fun a : jv =>
+      on_str a (fun s => jbool (binary_grammar s)));
+   (s2l "weekday_value", fun a : jv =>
+      on_str a (fun s => jopt (fun v : option Z * str => JL [jopt JZ (fst v); JS (snd v)]) (weekday_value s)));
+   (s2l "freq_grammar", fun a : jv =>
+      on_str a (fun s => jbool (freq_grammar s)));
+   (s2l "month_value", fun a : jv =>
+      on_str a (fun s => jopt jmonth (month_value s)));
+   (s2l "uri_grammar", fun a : jv =>
+      on_str a (fun s => jbool (uri_grammar s)))].
+
+Fixpoint c03_lookup (f : list N) (t : list (str * (jv -> jv))) : option (jv -> jv) :=
+  match t with
+  | [] => None
+  | (k, g) :: r => if str_eqb f k then Some g else c03_lookup f r
+  end.
+
+Definition dispatch_c03 (f : list N) (a : jv) : option jv :=
+  match c03_lookup f c03_table with Some g => Some (g a) | None => None end.
